@@ -285,7 +285,20 @@ func checkCase(c Case) error {
 		if err != nil {
 			return fmt.Errorf("Text(): %v", err)
 		}
-		if err := checkTSV(text, sheets); err != nil {
+		hasEmpty := false
+		for _, s := range sheets {
+			hasEmpty = hasEmpty || len(s.Cells) == 0
+		}
+		if hasEmpty {
+			// how a sheet without any cell shows in the text is not fixed; the values of the others are all there
+			for _, s := range sheets {
+				for _, v := range s.Grid() {
+					if v != "" && !strings.Contains(text, v) {
+						return fmt.Errorf("text: value %q of sheet %q is missing", v, s.Name)
+					}
+				}
+			}
+		} else if err := checkTSV(text, sheets); err != nil {
 			return fmt.Errorf("text: %v", err)
 		}
 		// (c) document model
@@ -302,6 +315,16 @@ func checkCase(c Case) error {
 				if t, ok := e.(*model.Table); ok {
 					tables = append(tables, t)
 				}
+			}
+			if doc.Pages[i].Number != i+1 {
+				return fmt.Errorf("document: page %d (sheet %q) carries the number %d", i+1, s.Name, doc.Pages[i].Number)
+			}
+			if len(s.Cells) == 0 {
+				// a sheet without cells is a page without a table (one page per sheet)
+				if len(tables) != 0 {
+					return fmt.Errorf("document: page %d (sheet %q, no cells) has %d tables", i+1, s.Name, len(tables))
+				}
+				continue
 			}
 			if len(tables) != 1 {
 				return fmt.Errorf("document: page %d has %d tables, want 1", i+1, len(tables))
@@ -328,10 +351,16 @@ func checkCase(c Case) error {
 					tables = append(tables, b.Rows)
 				}
 			}
-			if len(tables) != len(sheets) {
-				return fmt.Errorf("markdown: %d tables, want %d\n%s", len(tables), len(sheets), clip(md))
+			var filled []xlsxw.Sheet
+			for _, s := range sheets {
+				if len(s.Cells) > 0 {
+					filled = append(filled, s)
+				}
 			}
-			for i, s := range sheets {
+			if len(tables) != len(filled) {
+				return fmt.Errorf("markdown: %d tables, want %d (sheets with cells)\n%s", len(tables), len(filled), clip(md))
+			}
+			for i, s := range filled {
 				if err := matchGrid(tables[i], s.Grid(), mdparse.Norm); err != nil {
 					return fmt.Errorf("markdown: sheet %q: %v", s.Name, err)
 				}
@@ -428,6 +457,11 @@ func genCase(t *rapid.T) Case {
 	if !vr.Want("sst-renamed", w.Opt.SSTPart != "") {
 		w.Opt.SSTPart = ""
 	}
+	// a sheet without any cell (never the only sheet): still a sheet, a page, and no table
+	if len(w.Sheets) >= 2 && rapid.IntRange(0, 4).Draw(t, "emptySheet") == 0 {
+		i := rapid.IntRange(0, len(w.Sheets)-1).Draw(t, "emptySheetAt")
+		w.Sheets[i].Cells, w.Sheets[i].Merges, w.Sheets[i].EmptyRows, w.Sheets[i].Dimension = nil, nil, nil, ""
+	}
 	return Case{WB: w}
 }
 
@@ -505,6 +539,12 @@ func meta(c Case) vr.Meta {
 		}
 		if !cellsSorted {
 			lab["cells-out-of-order"] = true
+		}
+		if len(s.Cells) == 0 {
+			lab["sheet-without-cells"] = true
+		}
+		if s.OmitCellR {
+			lab["cells-without-r"] = true
 		}
 		if len(s.EmptyRows) > 0 {
 			lab["empty-row-elements"] = true
